@@ -202,3 +202,25 @@ def handleReconcile (line : String) : String :=
   | none => "bad-op"
 
 end Mutagen.Driver.Tree
+
+namespace Mutagen.Driver.Tree
+open Mutagen.Driver Mutagen.Model
+
+/-- Parse `path[changes|changes]`. -/
+def parseConflict (s : String) : Option Conflict :=
+  match s.splitOn "[" with
+  | [p, rest] =>
+    if !rest.endsWith "]" then none else
+    match (String.ofList rest.toList.dropLast).splitOn "|" with
+    | [a, b] => do
+      pure { root := ← parsePath p, alphaChanges := ← parseChanges a, betaChanges := ← parseChanges b }
+    | _ => none
+  | _ => none
+
+/-- `cfvalid <conflict>` → `Conflict.EnsureValid() == nil` as 0/1, `|`, the slim conflict. -/
+def handleConflictValid (s : String) : String :=
+  match parseConflict s with
+  | some c => showBool c.ensureValid ++ "|" ++ showConflict c.slim
+  | none => "bad-op"
+
+end Mutagen.Driver.Tree
